@@ -123,7 +123,9 @@ class GeckoSnapshot:
         )
 
     def _re_data_segment(self, groups):
-        data = groups[0].replace("'", "\\x27")
+        # Escape the quotes that bytes.__repr__ left bare (double-quoted repr); a quote
+        # it already escaped (repr of data holding both quote characters) stays as is
+        data = re.sub(r"(?<!\\)((?:\\\\)*)'", r"\1\\x27", groups[0])
         bytes_ = ast.literal_eval(f"b'{data}'")
         self._status_block_handler.handle(bytes_, None)
         self._status_block_segments.append(self._status_block_handler.data)
